@@ -18,7 +18,7 @@ from concurrent.futures import ThreadPoolExecutor
 from . import build as B
 
 ENV_SAN = {
-    "ASAN_OPTIONS": "abort_on_error=1:detect_leaks=1:allocator_may_return_null=1:handle_abort=0:detect_stack_use_after_return=0",
+    "ASAN_OPTIONS": "abort_on_error=1:detect_leaks=0:allocator_may_return_null=1:handle_abort=0:detect_stack_use_after_return=0",
     "UBSAN_OPTIONS": "print_stacktrace=1:halt_on_error=1",
     "TSAN_OPTIONS": "halt_on_error=1:second_deadlock_stack=1",
     "LSAN_OPTIONS": "exitcode=23",
@@ -34,7 +34,7 @@ class Crash:
     def kind(self):
         s = self.stderr
         if "AddressSanitizer" in s:
-            m = re.search(r"AddressSanitizer: ([\w-]+)", s)
+            m = re.search(r"AddressSanitizer: ([A-Za-z][\w-]*)", s)
             return "asan:" + (m.group(1) if m else "?")
         if "LeakSanitizer" in s:
             return "lsan:leak"
